@@ -322,9 +322,13 @@ int BDBPersister::operator()()
 unsigned MemoryPersister::get(const unsigned from, const unsigned to, Session& session,
 	bool (Session::*callback)(const Session::SequencePair& with, Session::RetransmissionContext& rctx)) const
 {
-	unsigned last_seq(0);
-	get_last_seqnum(last_seq);
-	unsigned recs_sent(0), startSeqNum(find_nearest_highest_seqnum (from, last_seq));
+	unsigned last_seq(0), startSeqNum;
+	{
+		f8_scoped_spin_lock guard(_spl);
+		get_last_seqnum(last_seq);
+		startSeqNum = find_nearest_highest_seqnum (from, last_seq);
+	}
+	unsigned recs_sent(0);
 	const unsigned finish(to == 0 ? last_seq : to);
 	Session::RetransmissionContext rctx(from, to, session.get_next_send_seq());
 
@@ -336,23 +340,36 @@ unsigned MemoryPersister::get(const unsigned from, const unsigned to, Session& s
 		return 0;
 	}
 
-	Store::const_iterator itr(_store.find(startSeqNum));
-	if (itr != _store.end())
+	// A sending thread may put() while the range is being answered: each record is looked up and copied under
+	// the lock. It is not held across the callback, which sends.
+	unsigned seqnum(startSeqNum);
+	f8String data;
+	enum { found, finished, missing };
+	auto fetch([&](const bool first)->int
 	{
-		do
+		f8_scoped_spin_lock guard(_spl);
+		Store::const_iterator itr(first ? _store.find(seqnum) : _store.upper_bound(seqnum));
+		if (itr == _store.end())
+			return first ? missing : finished;
+		if (!itr->first || itr->first > finish)
+			return finished;
+		seqnum = itr->first;
+		data = itr->second;
+		return found;
+	});
+
+	int res(fetch(true));
+	if (res != missing)
+	{
+		for (; res == found; res = fetch(false))
 		{
-			if (!itr->first || itr->first > finish)
-				break;
-			Session::SequencePair result(itr->first, itr->second);
 			++recs_sent;
-			if (!(session.*callback)(result, rctx))
+			if (!(session.*callback)(Session::SequencePair(seqnum, data), rctx))
 				break;
 		}
-		while(++itr != _store.end());
 
-		Session::SequencePair result(0, "");
 		rctx._no_more_records = true;
-		(session.*callback)(result, rctx);
+		(session.*callback)(Session::SequencePair(0, ""), rctx);
 	}
 	else
 		glout_error << "record not found (" << startSeqNum << ')';
@@ -363,6 +380,7 @@ unsigned MemoryPersister::get(const unsigned from, const unsigned to, Session& s
 //-------------------------------------------------------------------------------------------------
 bool MemoryPersister::put(const unsigned sender_seqnum, const unsigned target_seqnum)
 {
+	f8_scoped_spin_lock guard(_spl);
 	const unsigned arr[2] { sender_seqnum, target_seqnum };
 	_store.erase(0); // replace any previous control record
 	return _store.insert({0, f8String(reinterpret_cast<const char *>(arr), sizeof(arr))}).second;
@@ -371,12 +389,14 @@ bool MemoryPersister::put(const unsigned sender_seqnum, const unsigned target_se
 //-------------------------------------------------------------------------------------------------
 bool MemoryPersister::put(const unsigned seqnum, const f8String& what)
 {
+	f8_scoped_spin_lock guard(_spl);
 	return !seqnum ? false : _store.insert({seqnum, what}).second;
 }
 
 //-------------------------------------------------------------------------------------------------
 bool MemoryPersister::get(unsigned& sender_seqnum, unsigned& target_seqnum) const
 {
+	f8_scoped_spin_lock guard(_spl);
 	Store::const_iterator itr(_store.find(0));
 	if (itr == _store.end())
 		return false;
@@ -392,6 +412,7 @@ bool MemoryPersister::get(unsigned& sender_seqnum, unsigned& target_seqnum) cons
 //-------------------------------------------------------------------------------------------------
 bool MemoryPersister::get(const unsigned seqnum, f8String& to) const
 {
+	f8_scoped_spin_lock guard(_spl);
 	if (!seqnum)
 		return false;
 	Store::const_iterator itr(_store.find(seqnum));
